@@ -53,6 +53,10 @@ structure HalfArm where
 /-- Fields of a placement. -/
 inductive PField | id | col | row | w | h
   deriving DecidableEq, Repr
+/-- The lower pixel of a full-block cell: ` + "`img.At(x, y+1)`" + ` whatever y+1 is (outside the image = the zero colour), or
+    the upper pixel again when the image has no row y+1. -/
+inductive Bottom | read | topIfMissing
+  deriving DecidableEq, Repr
 /-- One leading ` + "`if … { return }`" + ` of a Draw method: no encoded data yet (` + "`X.buf.Len() == 0`" + `), the encoder goroutine
     still running (` + "`atomicLoad(&X.encoding)`" + `), the size test ` + "`X.w <cw> w <conn> X.h <ch> h`" + ` against
     ` + "`w, h := win.Size()`" + `, or a condition the extractor does not know (the model then treats the method as never
@@ -585,8 +589,28 @@ func gen(c *ex.Ctx) {
 		}
 		return true
 	})
+	// the lower pixel: read unconditionally (`bot := img.At(x, y+1)`, out of bounds = zero colour), or — since the
+	// F220 repair — the upper pixel again when the image has no row y+1
+	bottom := ""
+	switch {
+	case reads["bot := img.At(x, y+1)"]:
+		bottom = ".read"
+	case reads["bot := top"] && reads["bot = img.At(x, y+1)"]:
+		ast.Inspect(fb.Body, func(n ast.Node) bool {
+			if is, ok := n.(*ast.IfStmt); ok && is.Init == nil && is.Else == nil && len(is.Body.List) == 1 &&
+				src(c, is.Cond) == "y+1 < img.Bounds().Max.Y" && src(c, is.Body.List[0]) == "bot = img.At(x, y+1)" {
+				bottom = ".topIfMissing"
+			}
+			return true
+		})
+	}
+	if bottom == "" {
+		c.Fail("image.go FullBlockImage.Resize: how the lower pixel `bot` is read is not understood")
+		return
+	}
+	fmt.Fprintf(&sb, "\n/-- how FullBlockImage.Resize reads the lower pixel of a cell. -/\ndef fullBlockBottom : Bottom := %s\n", bottom)
 	for _, need := range []string{"y := i / fb.width", "x := i - (y * fb.width)", "y *= 2",
-		"top := img.At(x, y)", "bot := img.At(x, y+1)", "r, g, b, a := averageColor(top, bot)",
+		"top := img.At(x, y)", "r, g, b, a := averageColor(top, bot)",
 		"fb.width = img.Bounds().Max.X", "h = img.Bounds().Max.Y", "fb.height = h / 2"} {
 		if !reads[need] {
 			c.Fail("image.go FullBlockImage.Resize: statement %q not found", need)
